@@ -125,6 +125,7 @@ type cliQuery struct {
 	shape   string
 	ordered bool
 	key     string
+	table   string // plugin table expression ("" = testplugin.t)
 }
 
 func genCLIQuery(c *core.Ctx, i int) cliQuery {
@@ -211,14 +212,24 @@ func cliLeg(c *core.Ctx) {
 		}
 		jobs = append(jobs, j)
 	}
+	for _, q := range subqueryCLIQueries(c) {
+		if c.Only == "" || c.Only == q.id {
+			jobs = append(jobs, job{q: q})
+		}
+	}
 	core.Parallel(len(jobs), 16, func(i int) {
 		q := jobs[i].q
 		c.Eval(1)
 		logf := filepath.Join(c.Scratch, fmt.Sprintf("cli-plugin-%s.jsonl", q.id))
 		defer os.Remove(logf)
 		env := []string{"OCTOSQL_PLUGIN_DIR=" + pd, "OCTOSQL_PLUGIN_TMP_DIR=" + sockDir, "TESTPLUGIN_LOG=" + logf}
-		nativeSQL := fmt.Sprintf(q.tmpl, "t.json")
-		pluginSQL := fmt.Sprintf(q.tmpl, "testplugin.t")
+		// (not Sprintf: predicates contain LIKE patterns with '%')
+		nativeSQL := strings.Replace(q.tmpl, "%s", "t.json", 1)
+		table := q.table
+		if table == "" {
+			table = "testplugin.t"
+		}
+		pluginSQL := strings.Replace(q.tmpl, "%s", table, 1)
 		if jobs[i].self {
 			pluginSQL = strings.Replace(pluginSQL, " WHERE ", " WHERE NOT ", 1) // deliberately different query
 		}
@@ -229,6 +240,8 @@ func cliLeg(c *core.Ctx) {
 			"native_stderr": lastLines(string(nat.Stderr), 3), "plugin_stderr": lastLines(string(plg.Stderr), 3)}
 		c.Count("cli/shape/"+q.shape, 1)
 		if nat.TimedOut || plg.TimedOut {
+			c.Count(fmt.Sprintf("cli/watchdog/%s/native=%v,plugin=%v", q.shape, nat.TimedOut, plg.TimedOut), 1)
+			c.Note("cli_watchdog_last_query", pluginSQL)
 			c.Inconclusive("watchdog")
 			return
 		}
